@@ -550,6 +550,8 @@ def build_secp(job):
             pool.append(prod("mul", lambda: s.privtopub(d.to_bytes(32, "big")), a=g, n=d))      # privtopub(d) = d G
         for d in (2 ** 256 + 5, rng.getrandbits(300) | 1 << 299):                                 # longer key strings
             pool.append(prod("mul", lambda: s.privtopub(d.to_bytes(40, "big")), a=g, n=d))
+        for d, ln in ((1, 1), (0x0102, 2), (rng.getrandbits(240) | 1, 31), (7, 33)):               # shorter / padded ones
+            pool.append(prod("mul", lambda: s.privtopub(d.to_bytes(ln, "big")), a=g, n=d))
         pairs = [(g, g), (g, o), (o, g), (o, o), (pool[3], pool[6]), (pool[6], pool[3])] + \
             [(rng.choice(pool), rng.choice(pool)) for _ in range(10 if quick else 60)]
         for (a, b) in pairs:
